@@ -616,8 +616,12 @@ func handleInputStream(s *Session, handler Handler) (err error) {
 		s.sentStanzaMutex.Lock()
 		readerChan, ok := s.sentStanzas[id]
 		s.sentStanzaMutex.Unlock()
+		// A request that was sent with an unqualified name is answered by the
+		// stanza of that local name, not by an element that is merely called iq
+		// in some application namespace.
 		emptySpace := xml.Name{Local: start.Name.Local}
-		if ok && readerChan.stanzaName == start.Name || readerChan.stanzaName == emptySpace {
+		stanzaSpace := start.Name.Space == "" || start.Name.Space == stanza.NSClient || start.Name.Space == stanza.NSServer || start.Name.Space == s.in.XMLNS
+		if ok && (readerChan.stanzaName == start.Name || (stanzaSpace && readerChan.stanzaName == emptySpace)) {
 			inner := xmlstream.Inner(r)
 			select {
 			case readerChan.c <- iqResponder{
